@@ -602,7 +602,8 @@ pub fn run(o: &Opts) -> i32 {
                 write_text_scenario(&dir, &format!("textrand{}", i), &t);
                 names.push((format!("textrand{}", i), "grammar-directed random definitions file".into()));
             }
-            for (i, t) in ["", "\n", "{", "}", "a {", "a { b", "a { b c", "a { b c d /", "a { b c d / e", "!category", "!category x", "!category x \"", "!endcategory", "!symbol", "!symbol H", "??", "?? doc", "x", "x !", "x !y\nx !y", "x- ", "x-- y", "a ? ", "a ? b ^ c", "a 1 /", "a (", "a )", "a 1e", "a \\u", "a \\u{", "a \"unterminated", "a #", "a 1 # c\n  continued", "a\tb", "a b\r\nc d\r\n", "\u{feff}a 1", "a 0x", "a 1|", "a |1", "a ^", "a 2^^3", "a -", "a --1", "a 1 per", "a sqrt(", "a f(1,", "a 1,2", "a !", "! x", "!include foo", "a { } }", "m !\n!symbol foo Xx\nfoo {\n    molar_mass mass 5 m / amount 1\n}\nzbar Xx2\n", "a 1\na 2\na- 3\na- 4\na ? m\na ? s"].iter().enumerate() {
+            for (i, t) in ["", "\n", "{", "}", "a {", "a { b", "a { b c", "a { b c d /", "a { b c d / e", "!category", "!category x", "!category x \"", "!endcategory", "!symbol", "!symbol H", "??", "?? doc", "x", "x !", "x !y\nx !y", "x- ", "x-- y", "a ? ", "a ? b ^ c", "a 1 /", "a (", "a )", "a 1e", "a \\u", "a \\u{", "a \"unterminated", "a #", "a 1 # c\n  continued", "a\tb", "a b\r\nc d\r\n", "\u{feff}a 1", "a 0x", "a 1|", "a |1", "a ^", "a 2^^3", "a -", "a --1", "a 1 per", "a sqrt(", "a f(1,", "a 1,2", "a !", "! x", "!include foo", "a { } }", "m !\n!symbol foo Xx\nfoo {\n    molar_mass mass 5 m / amount 1\n}\nzbar Xx2\n", "a 1\na 2\na- 3\na- 4\na ? m\na ? s",
+                           "m !\nmile 5280. m\n", "m !\na 1.e3 m\n", "a 0.", "m !\na 3.m", "a .", "a ..", "a 1..2", "a .e5", "a 5.e", "a 1.5.", "a- 10.", "m !\nq ? m^2.\n", "m !\nfoo {\n  w const x 2. m\n}\n"].iter().enumerate() {
                 write_text_scenario(&dir, &format!("edge{}", i), t);
                 names.push((format!("edge{}", i), format!("edge text {:?}", t)));
             }
@@ -616,6 +617,12 @@ pub fn run(o: &Opts) -> i32 {
                 (format!("pow-chain-{}", n), format!("m !\nfoo 2{} m\nbar 2 foo\n", "^1".repeat(n))),
                 (format!("juxt-{}", n), format!("m !\nfoo {}\nbar 2 foo\n", "m ".repeat(n))),
                 (format!("frac-chain-{}", n), format!("m !\nfoo 1{} m\nbar 2 foo\n", " / 2".repeat(n))),
+                // every expression site of a substance block
+                (format!("const-parens-{}", n), format!("m !\nfoo {{\n    weight const w {}1 m{}\n}}\nbar 2 m\n", "(".repeat(n), ")".repeat(n))),
+                (format!("const-minus-{}", n), format!("m !\nfoo {{\n    weight const w {}1 m\n}}\nbar 2 m\n", "-".repeat(n))),
+                (format!("const-pipe-{}", n), format!("m !\nfoo {{\n    weight const w 1{} m\n}}\nbar 2 m\n", "|1".repeat(n))),
+                (format!("ratio-out-{}", n), format!("m !\nkg !\nfoo {{\n    dens mass {}1 kg{} / volume 1 m^3\n}}\nbar 2 m\n", "(".repeat(n), ")".repeat(n))),
+                (format!("ratio-in-{}", n), format!("m !\nkg !\nfoo {{\n    dens mass 1 kg / volume {}1 m^3\n}}\nbar 2 m\n", "-".repeat(n))),
             ] };
             let mut more: Vec<(String, String)> = vec![
                 ("quantity-div-limit".into(), "m !\nhuge ? m^9223372036854775807 / m^-9223372036854775807\nok ? m^2\n".into()),
